@@ -1,13 +1,13 @@
 SPECIFICATION Spec
 CONSTANTS
-  Slots = {1, 2, 3}
-  Evil = 3
+  Slots = {1, 2}
+  Evil = 2
   ClaimSet = {1}
   NoteSet = {0, 1}
-  Services = {"a"}
+  Services = {"a", "b"}
   MaxNet = 2
   MaxBlobs = 2
-  MaxClock = 1
+  MaxClock = 2
   Weaken = "none"
 VIEW MCView
 INVARIANTS Invs
